@@ -12,7 +12,7 @@ import ast
 from ..program import AnalysisError, Inconclusive, ClassInfo
 from ..values import App, Const, Sym, walk
 from ..effects import Effects
-from ..report import Finding, RuleResult, floor, Attempts
+from ..report import Finding, RuleResult, floor, Attempts, adopt
 
 PROP = 'C07'
 MODULES = ['kripke', 'graph', 'language', 'PL', 'CTL', 'CTLS', 'LTL',
@@ -235,6 +235,14 @@ def run(prog, tier, seed):
     T = Attempts()
     results = T.results(T(rule_pure1, prog, E), T(rule_pure3, prog, E),
                         T(rule_pure4, prog, E))
+    # mutators act on clones: the clone and the constructor must copy
+    from . import c13, c14
+    adj = T(c13.adjacency_field, prog)
+    if adj:
+        results = results + adopt(T.results(
+            T(c14.rule_k1, prog, adj), T(c14.rule_k4, prog, adj),
+            T(c13.rule_g0, prog, adj)), PROP,
+            'the copy the mutators act on')
     expl = ('Interprocedural effect/alias summaries (mutated parameters, '
             'aliased results, stored values, global writes) are computed for '
             'every function by abstract interpretation and closed over the '
